@@ -63,6 +63,9 @@ class VC:
     def __init__(self, func, timeout_ms=20000):
         src = textwrap.dedent(inspect.getsource(func))
         self.fn = ast.parse(src).body[0]
+        self.globals_ = getattr(func, "__globals__", {})
+        qn = getattr(func, "__qualname__", "").split(".")
+        self.cls_ = self.globals_.get(qn[0]) if len(qn) > 1 else None
         self.obligations = []          # (name, status, model/None, seconds)
         self.pre = []
         self.timeout_ms = timeout_ms
@@ -144,6 +147,9 @@ class VC:
             f = ast.unparse(e.func)
             args = [self.ev(a, st) for a in e.args]
             kw = {k.arg: self.ev(k.value, st) for k in e.keywords}
+            helper = self._helper(f)
+            if helper is not None:
+                return self._inline(helper, args, kw, st)
             return self.call(f, e, args, kw, st)
         if isinstance(e, ast.IfExp):
             c = self.ev(e.test, st)
@@ -211,6 +217,72 @@ class VC:
         if isinstance(e, ast.Tuple):
             return tuple(self.ev(x, st) for x in e.elts)
         raise VCError("unsupported expression " + ast.dump(e)[:80])
+
+    # ---- helpers introduced after the contracts were written (extract-method refactorings) are seen through
+    def _helper(self, f):
+        """the AST of a GemClus function / method called as `self.m`, `cls.m`, `Class.m` or `m` whose name did not exist when
+        the contracts were written (contracts/known_api.json), else None"""
+        from .fx import _known_api
+        name = f.split(".")[-1]
+        if name in _known_api() or not name.isidentifier():
+            return None
+        obj = None
+        owner = f.rsplit(".", 1)[0] if "." in f else None
+        if owner in ("self", "cls") or (owner and owner == getattr(self.cls_, "__name__", None)):
+            for k in getattr(self.cls_, "__mro__", ()):
+                if name in k.__dict__:
+                    obj = k.__dict__[name]
+                    break
+        elif owner is None:
+            obj = self.globals_.get(name)
+        if isinstance(obj, (staticmethod, classmethod)):
+            skip = 0 if isinstance(obj, staticmethod) else 1
+            obj = obj.__func__
+        else:
+            skip = 1 if owner in ("self", "cls") else 0
+        import types
+        if not isinstance(obj, types.FunctionType) or not (getattr(obj, "__module__", "") or "").startswith("gemclus"):
+            return None
+        try:
+            node = ast.parse(textwrap.dedent(inspect.getsource(obj))).body[0]
+        except (OSError, TypeError, SyntaxError):
+            return None
+        if any(isinstance(x, (ast.Yield, ast.YieldFrom, ast.While, ast.For)) for x in ast.walk(node)):
+            return None
+        return node, skip
+
+    def _inline(self, helper, args, kw, st):
+        node, skip = helper
+        params = [a.arg for a in node.args.args][skip:]
+        inner = st.copy()
+        inner.env = dict(st.env)
+        for pn, v in zip(params, args):
+            inner.env[pn] = v
+        inner.env.update(kw)
+        return self._ret_value(node.body, inner)
+
+    def _ret_value(self, stmts, st):
+        for i, s_ in enumerate(stmts):
+            if isinstance(s_, ast.Expr) and isinstance(s_.value, ast.Constant):
+                continue
+            if isinstance(s_, ast.Return):
+                return self.ev(s_.value, st) if s_.value is not None else None
+            if isinstance(s_, ast.If) and any(isinstance(x, ast.Return) for x in ast.walk(s_)):
+                c = self.ev(s_.test, st)
+                if c is True:
+                    return self._ret_value(list(s_.body) + list(stmts[i + 1:]), st)
+                if c is False:
+                    return self._ret_value(list(s_.orelse) + list(stmts[i + 1:]), st)
+                a, b = st.copy(), st.copy()
+                a.assm.append(c)
+                b.assm.append(z3.Not(c))
+                va = self._ret_value(list(s_.body) + list(stmts[i + 1:]), a)
+                vb = self._ret_value(list(s_.orelse) + list(stmts[i + 1:]), b)
+                if isinstance(va, z3.ExprRef) and isinstance(vb, z3.ExprRef):
+                    return z3.If(c, va, vb)
+                return va if va is vb else ("ite", c, va, vb)
+            self.run([s_], st)
+        return None
 
     def is_none(self, src, node, st):
         raise VCError(f"needs contract: {src} is None")
